@@ -40,7 +40,7 @@ FN_CALL = ["krige/base.py:Krige.__call__", "krige/base.py:Krige._summate", "krig
            "field/base.py:Field.get_store_config", "normalizer/tools.py:apply_mean_norm_trend",
            "tools/misc.py:eval_func"] + FN_VEC
 
-ALLV = list(kc.VARIANTS)
+ALLV = [v for v in kc.VARIANTS if v != "ordinary+mean"]
 ERRS = ("nugget", "exact", "scalar", "vector")
 
 
@@ -545,7 +545,7 @@ def krige_mesh(ctx, variant, dim):
 
 
 @contract(P, "Krige.get_mean/kriging-the-mean",
-          params=[{"variant": v, "norm": nk} for v in ("simple", "ordinary", "universal", "extdrift", "detrended")
+          params=[{"variant": v, "norm": nk} for v in ("simple", "ordinary", "universal", "extdrift", "detrended", "ordinary+mean")
                   for nk in ("none", "generic") if not (v == "detrended" and nk != "none")],
           functions=["krige/base.py:Krige.get_mean", "krige/base.py:Krige.__call__", "krige/base.py:Krige.has_const_mean"]
           + FN_VEC, bounded=BND, nsamples=2, search=40, max_paths=MAXP)
@@ -773,8 +773,10 @@ def cond_order(ctx, variant, n, dim):
 # (7) the estimate is computed with THE model's covariance, also after re-assigning the model
 # ---------------------------------------------------------------------------------------
 @contract(P, "Krige.model.setter/estimate=fresh-Krige-with-new-model",
-          params=[{"variant": v, "how": h} for v in ("simple", "ordinary") for h in ("reassign", "reassign+set_condition")],
-          functions=["field/base.py:Field.model", "krige/base.py:Krige.set_condition", "krige/base.py:Krige.__call__"],
+          params=[{"variant": v, "how": h} for v in ("simple", "ordinary")
+                  for h in ("reassign", "reassign+set_condition", "edit-in-place+reassign-same-object")],
+          functions=["field/base.py:Field.model", "krige/base.py:Krige.set_condition", "krige/base.py:Krige.__call__",
+                     "krige/base.py:Krige.model"],
           bounded=BND, nsamples=3, search=40, timeout=10, max_paths=MAXP)
 @kc.guarded
 def model_reassign(ctx, variant, how):
@@ -785,7 +787,14 @@ def model_reassign(ctx, variant, how):
     S = kc.build(ctx, variant, 2, 1)
     mod2 = kc.sym_model(ctx, 1, tag="new_")
     tp, pts, te = kc.targets(ctx, S, 1)
-    S.krige.model = mod2
+    if how == "edit-in-place+reassign-same-object":
+        # m = krige.model; m.len_scale = ...; krige.model = m  -- the assigned object compares equal to the stored
+        # one (it IS the stored one): the assignment must still refresh the kriging setup
+        mo = S.krige.model
+        mo.var, mo.len_scale, mo.nugget = mod2.var, mod2.len_scale, mod2.nugget
+        S.krige.model = mo
+    else:
+        S.krige.model = mod2
     if how == "reassign+set_condition":
         quiet(S.krige.set_condition)
     got_f, got_v = raw_call(ctx, S, tp, te)
